@@ -410,8 +410,9 @@ def _broadcast_names(f):
 def _r3(ctx):
     prog = ctx.prog
     ctx.rule("R-C08-3", floor=6, what="basquin_load o basquin_cycles == id on the finite branch (normal form); infinite default")
-    fc = prog.func(WC + ".basquin_cycles")
-    fl = prog.func(WC + ".basquin_load")
+    from ..inline import inlined
+    fc = inlined(prog, prog.func(WC + ".basquin_cycles"), skip=("_make_k",))      # private helpers shared by the two directions expanded
+    fl = inlined(prog, prog.func(WC + ".basquin_load"), skip=("_make_k",))
     sc = _finite_formula(fc)
     sl = _finite_formula(fl)
     ld_name, _ = _broadcast_names(fc)
